@@ -9,10 +9,16 @@ mod e2;
 mod fam;
 mod histpub;
 mod longscan;
+mod replay;
 
 use refsem::evidence::{machinery, parse_args};
 
 fn main() {
+    let args: Vec<String> = std::env::args().collect();
+    if args.get(1).map(|s| s.as_str()) == Some("replay") {
+        bridge::quiet_panics();
+        replay::run(args.get(2).map(|s| s.as_str()).unwrap_or(""));
+    }
     let (prop, tier, _rest) = parse_args();
     bridge::quiet_panics();
     match prop.as_str() {
